@@ -891,6 +891,11 @@ def run_history(ctx, spec, length, r, reqs, pending):
                 if tuple(g2.spatial_shape) != tuple(v2.spatial_shape) or not same_aff:
                     ctx.fail(case, {'what': 'geometry-only object did not undergo the same change',
                                     'volume': observe_geom(v2.get_geometry()), 'geometry': observe_geom(g2)}, site=site + '/geometry')
+                vg2 = v2.get_geometry()
+                if tuple(vg2.spatial_shape) != tuple(v2.spatial_shape) or not np.array_equal(vg2.affine, v2.affine) \
+                        or str(vg2.coordinate_system) != str(v2.coordinate_system) \
+                        or vg2.frame_of_reference_uid != v2.frame_of_reference_uid:
+                    ctx.fail(case, {'what': 'get_geometry() of the result differs from the result'}, site=site + '/get_geometry')
                 if type(g2).__name__ != 'VolumeGeometry' or type(v2).__name__ != 'Volume':
                     ctx.fail(case, {'what': 'result type changed'}, site=site)
             if op['op'] == 'with_array':
@@ -1229,7 +1234,7 @@ def run(ctx):
     for entry in _corpus(ctx):
         run_fixed(ctx, entry, reqs, pending)
     orientation_grid(ctx)
-    n = ctx.n(1200, 12000)
+    n = ctx.n(1200, 24000)
     _run_cases(ctx, range(n), reqs, pending)
     answers = ctx.model(reqs)
     if answers is None:
